@@ -561,3 +561,79 @@ def operator_value_lattice(ctx):
                                 break
                         dist[tag or "obj"] = dist.get(tag or "obj", 0) + 1
     return bad, {"operator_forms": n_forms, "operator_elements": n_elems, "operator_distribution": dist}
+
+
+# ------------------------------------------------------------------------------------------------ documented signatures: keyword = positional
+def keyword_lattice(ctx):
+    """For every public method of the DOCUMENTED protocol classes (vector._methods.VectorProtocol*, read with inspect.signature) the
+    call with the documented parameter NAMES as keywords, in reversed order, gives the same result as the positional call in the
+    documented ORDER, and documented defaults equal passing the default explicitly — on the object, NumPy and Awkward backends.
+    -> (bad, stats)"""
+    import inspect
+    from vector import _methods as M
+    r = C.rng(ctx.seed, "keyword-lattice")
+    bad, n = [], 0
+    protos = {2: (M.VectorProtocol, M.VectorProtocolPlanar), 3: (M.VectorProtocol, M.VectorProtocolPlanar, M.VectorProtocolSpatial),
+              4: (M.VectorProtocol, M.VectorProtocolPlanar, M.VectorProtocolSpatial, M.VectorProtocolLorentz)}
+    NUM = {"factor": 2.5, "angle": 0.7, "phi": 0.4, "theta": -1.2, "psi": 2.1, "yaw": 0.3, "pitch": -0.8, "roll": 1.9, "u": 0.5, "i": 0.1, "j": -0.7, "k": 0.5,
+           "tolerance": 0.01, "rtol": 1e-3, "atol": 1e-6, "equal_nan": False, "beta": 0.3, "order": "yzx"}
+    for dim in (2, 3, 4):
+        sig = r.choice(C.SIGS[dim])
+        fl = r.choice("gm")
+        rows = [C.cart_to_stored(sig, p) for p in C.strata_points(dim, r, n_random=2)[:4]]
+        rows2 = [C.cart_to_stored(sig, p) for p in C.strata_points(dim, r, n_random=4)[-4:]]
+        axis_rows = [C.cart_to_stored(("xy", "z"), p) for p in C.strata_points(3, r, n_random=4)[-4:]]
+        beta_rows = [[0.1 * x for x in row] for row in axis_rows]
+        for tag in ("", "N.", "A."):
+            v, w = operand(tag, fl, sig, rows), operand(tag, fl, sig, rows2)
+            extra = {"other": w, "axis": operand(tag, "g", ("xy", "z"), axis_rows), "beta3": operand(tag, "g", ("xy", "z"), beta_rows), "p4": w, "booster": w,
+                     "obj": {k: round(0.3 + 0.17 * i * (-1) ** i, 3) for i, k in enumerate([a + b for a in "xyzt"[:dim] for b in "xyzt"[:dim]])}}
+            methods = {}
+            for P in protos[dim]:
+                for name, f in vars(P).items():
+                    if not name.startswith("_") and callable(f):
+                        methods[name] = f            # later (more specific) protocol classes override
+            for name, f in sorted(methods.items()):
+                try:
+                    params = list(inspect.signature(f).parameters.values())[1:]
+                except (TypeError, ValueError):
+                    continue
+                if not params or name.startswith(("to_", "from_")) or (name.startswith("transform") and int(name[9]) != dim):
+                    continue
+                if name.startswith("boost") and name[5:6] in "XYZ":
+                    params = [p for p in params if p.name == "beta"]
+                vals = {}
+                for p in params:
+                    vals[p.name] = extra[p.name] if p.name in extra else NUM.get(p.name)
+                if any(x is None for x in vals.values()):
+                    bad.append((f"{name} on {tag}{dim}D", f"documented parameter without a test value: {[p.name for p in params]}", f"keyword:untested:{name}"))
+                    continue
+                n += 1
+                desc = f"{name}({', '.join(p.name for p in params)}) on {tag or 'object '}{fl}:{sig}"
+                try:
+                    pos = getattr(v, name)(*[vals[p.name] for p in params])
+                except Exception as e:  # noqa: BLE001  (undefined for this dimension: nothing to compare)
+                    continue
+                try:
+                    kw = getattr(v, name)(**{p.name: vals[p.name] for p in reversed(params)})
+                except Exception as e:  # noqa: BLE001
+                    bad.append((desc, f"keyword call with the documented names raises {type(e).__name__}: {str(e)[:80]}", f"keyword:{name}"))
+                    continue
+                if type_of(pos) != type_of(kw) or any(not compare_elem(a_, b_, 10.0) for a_, b_ in zip(_canon(pos, len(rows)), _canon(kw, len(rows)))):
+                    bad.append((desc, f"keyword call gives {str(_canon(kw, len(rows))[0])[:90]}, positional call in the documented order gives {str(_canon(pos, len(rows))[0])[:90]}",
+                                f"keyword:{name}"))
+                    continue
+                # documented defaults
+                dflt = [p for p in params if p.default is not inspect.Parameter.empty and p.default is not None]
+                if dflt and not (name.startswith("boost") and name[5:6] in "XYZ"):
+                    req = [p for p in params if p not in dflt]
+                    try:
+                        a_ = getattr(v, name)(*[vals[p.name] for p in req])
+                        b_ = getattr(v, name)(*[vals[p.name] for p in req], **{p.name: p.default for p in dflt})
+                    except Exception as e:  # noqa: BLE001
+                        bad.append((desc, f"call with the documented defaults raises {type(e).__name__}: {str(e)[:80]}", f"default:{name}"))
+                        continue
+                    n += 1
+                    if type_of(a_) != type_of(b_) or any(not compare_elem(x_, y_, 10.0) for x_, y_ in zip(_canon(a_, len(rows)), _canon(b_, len(rows)))):
+                        bad.append((desc, f"omitting {[p.name for p in dflt]} differs from passing the documented defaults {[p.default for p in dflt]}", f"default:{name}"))
+    return bad, {"keyword_calls": n}
